@@ -235,6 +235,8 @@ def gen_pattern(rng):
             parts.append(rng.choice(["a", "b", "-", ":", "\\+", "\\.", "[+]", "x"]))  # literal part
             continue
         atom = rng.choice(ATOMS1) if rng.random() < 0.8 else rng.choice(ATOMSW)
+        if n > 1 and atom in ("\\+", "(?:ab)"):  # text scanning goes out of step with the parse tree: witnesses only (F38b/c)
+            atom = "[a-z]"
         if atom == "a|b" and (n > 1 or rng.random() < 0.5):
             atom = "(a|b)"
         q = rng.choice(QUANTS if n == 1 else [x for x in QUANTS if not x.endswith("?") or x == "?"])
